@@ -25,6 +25,22 @@ Theorem C13_no_block_no_children :
 Proof. exact no_block_no_children. Qed.
 Print Assumptions C13_no_block_no_children.
 
+(* The deprecated call expression {! x } is a call without a block: same rendering as @x for every callee expression,
+   environment, fuel and state; in particular a generated callee reached through it runs with no children. *)
+Theorem C13_legacy_call_is_blockless_call :
+  forall templates fuel e kids ex next x,
+  render_node templates fuel e kids (NCallT ex) next x = render_node templates fuel e kids (NCall ex []) next x.
+Proof. exact legacy_call_is_blockless_call. Qed.
+Print Assumptions C13_legacy_call_is_blockless_call.
+
+Theorem C13_legacy_call_no_children :
+  forall templates f e kids ex name body next x,
+  slot x = None -> failed x = None -> comp_of (e_val ex) = CTempl name -> find_templ templates name = Some body ->
+  render_node templates (S f) e kids (NCallT ex) next x =
+  nodes_with (render_node templates f) (restrict e) None (strip_ws body) None (set_slot None x).
+Proof. exact no_block_no_children_legacy. Qed.
+Print Assumptions C13_legacy_call_no_children.
+
 (* Calling it with a block gives it exactly that block, closed over the caller's environment and the caller's own
    children (caller's scope); the slot is empty afterwards. *)
 Theorem C13_block_is_exactly_that_block :
@@ -63,4 +79,12 @@ Example C13_ex_blockless_inside_once :
 Proof. vm_compute. reflexivity. Qed.
 Example C13_ex_block_shown :
   run_body [NCall (ex0 "Card()") [NText (bs "B") SpNone]] = bs "<section>B</section>".
+Proof. vm_compute. reflexivity. Qed.
+(* a callee that ignores its children and reaches a slot-bearing component only through the legacy call expression:
+   the block passed to it is not seen by that component (the callee takes the slot on entry whatever its body looks like) *)
+Definition tbl_leg := [(bs "Card", card_body); (bs "Leg", [NCallT (ex0 "Card()"); NCallT (ex0 "templ.Flush()"); NCallT (ex0 "eager(ctx, Card())")])].
+Example C13_ex_block_to_legacy_only_callee :
+  (let r := nodes_with (render_node tbl_leg 50) [] None [NCall (ex0 "Leg()") [NText (bs "B") SpNone]; NCallT (ex0 "Card()")] None
+              {| outp := []; slot := None; failed := None; onces := [] |} in concat (rev (outp r)))
+  = bs "<section></section><e><section></section></e><section></section>".
 Proof. vm_compute. reflexivity. Qed.
